@@ -3,15 +3,17 @@
   values that satisfy the representation invariants `okVal` (non-zero denominators, dict keys
   pairwise `!=`, distinct attribute names); a structural induction principle for `PyVal`.
   Reflexivity holds unconditionally, transitivity needs `okVal` of the middle value only
-  (numbers), symmetry needs `okVal` of both (dict / instance comparison is "same length and every
-  left entry has a right partner": the converse is a pigeonhole argument).  Both side conditions
+  (numbers), symmetry needs `okVal` of both (dict comparison is "same length and every left entry
+  has a right partner": the converse is a pigeonhole argument).  Both side conditions
   are necessary: `pyEq_symm_needs_ok`, `pyEq_trans_needs_ok`.
+  Instance comparison mirrors `Structure.__eq__` over the merged `__dict__`s: an attribute holding
+  `None` reads like an absent one (`pyEq_inst_iff`); it is two-sided, so needs no pigeonhole.
 -/
 import TypedpyModel.Sem.EqHash
 set_option linter.unusedSectionVars false
 set_option linter.unusedVariables false
 namespace Typedpy
-open PyVal (pyEq pyEqList subsetBy anyEqL dictSub attrsSub asNum pyNodup pyMem)
+open PyVal (pyEq pyEqList subsetBy anyEqL dictSub attrsSubN anyAttr asNum pyNodup pyMem)
 
 /-- values without sub-values -/
 def PyVal.isAtom : PyVal → Bool
@@ -177,11 +179,37 @@ theorem dictSub_iff (a b : List (PyVal × PyVal)) :
   | nil => simp [dictSub]
   | cons h t ih => obtain ⟨k, v⟩ := h; simp [dictSub, ih, List.any_eq_true]
 
-theorem attrsSub_iff (a b : List (String × PyVal)) :
-    attrsSub a b = true ↔ ∀ p ∈ a, ∃ q ∈ b, p.1 = q.1 ∧ pyEq p.2 q.2 = true := by
+theorem attrsSubN_iff (a b : List (String × PyVal)) :
+    attrsSubN a b = true ↔
+      ∀ p ∈ a, p.2.isNone = true ∨ ∃ q ∈ b, p.1 = q.1 ∧ pyEq p.2 q.2 = true := by
   induction a with
-  | nil => simp [attrsSub]
-  | cons h t ih => obtain ⟨k, v⟩ := h; simp [attrsSub, ih, List.any_eq_true]
+  | nil => simp [attrsSubN]
+  | cons h t ih => obtain ⟨k, v⟩ := h; simp [attrsSubN, ih, List.any_eq_true]
+
+theorem anyAttr_iff (a : List (String × PyVal)) (q : String × PyVal) :
+    anyAttr a q = true ↔ ∃ p ∈ a, p.1 = q.1 ∧ pyEq p.2 q.2 = true := by
+  induction a with
+  | nil => simp [anyAttr]
+  | cons h t ih => obtain ⟨k, v⟩ := h; simp [anyAttr, ih]
+
+/-- `Structure.__eq__` on two instance values, in logical form: same class, and every attribute of
+    either side is `None` or has an `==` partner of the same name on the other side -/
+theorem pyEq_inst_iff (c c' : String) (a b : List (String × PyVal)) :
+    pyEq (.inst c a) (.inst c' b) = true ↔
+      c = c' ∧ (∀ p ∈ a, p.2.isNone = true ∨ ∃ q ∈ b, p.1 = q.1 ∧ pyEq p.2 q.2 = true)
+        ∧ (∀ q ∈ b, q.2.isNone = true ∨ ∃ p ∈ a, p.1 = q.1 ∧ pyEq p.2 q.2 = true) := by
+  simp only [pyEq, Bool.and_eq_true, beq_iff_eq, attrsSubN_iff, List.all_eq_true, Bool.or_eq_true,
+    anyAttr_iff, and_assoc]
+
+/-- only `None` is `==` to `None` -/
+theorem pyEq_none_right {v : PyVal} (h : pyEq v .none = true) : v = .none := by
+  cases v <;> simp_all [pyEq, asNum]
+
+theorem pyEq_none_left {v : PyVal} (h : pyEq .none v = true) : v = .none := by
+  cases v <;> simp_all [pyEq]
+
+theorem isNone_iff {v : PyVal} : v.isNone = true ↔ v = .none := by
+  cases v <;> simp [PyVal.isNone]
 
 
 /-! ### lists -/
@@ -249,8 +277,8 @@ theorem pyEq_refl : ∀ v : PyVal, pyEq v v = true := by
     simp only [pyEq, Bool.and_eq_true, beq_self_eq_true, true_and]
     exact (dictSub_iff _ _).2 (fun p hp => ⟨p, hp, (ih p hp).1, (ih p hp).2⟩)
   · intro c attrs ih
-    simp only [pyEq, Bool.and_eq_true, beq_self_eq_true, true_and]
-    exact (attrsSub_iff _ _).2 (fun p hp => ⟨p, hp, rfl, ih p hp⟩)
+    exact (pyEq_inst_iff _ _ _ _).2 ⟨rfl, fun p hp => Or.inr ⟨p, hp, rfl, ih p hp⟩,
+      fun p hp => Or.inr ⟨p, hp, rfl, ih p hp⟩⟩
 
 /-! ### transitivity -/
 
@@ -348,16 +376,23 @@ theorem pyEq_trans : ∀ v w u : PyVal, okVal w = true → pyEq v w = true → p
   · intro cn a ih w u ok h1 h2
     cases w with
     | inst cn' b =>
-      simp only [pyEq] at h1
       cases u with
       | inst cn'' c =>
-        simp only [pyEq] at h2 ⊢
         simp only [okVal, Bool.and_eq_true, okAttrs_iff] at ok
-        simp only [Bool.and_eq_true, beq_iff_eq, attrsSub_iff] at h1 h2 ⊢
-        refine ⟨⟨h1.1.1.trans h2.1.1, h1.1.2.trans h2.1.2⟩, fun p hp => ?_⟩
-        obtain ⟨q, hq, hk, hv⟩ := h1.2 p hp
-        obtain ⟨r, hr, hk', hv'⟩ := h2.2 q hq
-        exact ⟨r, hr, hk.trans hk', ih p hp q.2 r.2 (ok.1 q hq) hv hv'⟩
+        rw [pyEq_inst_iff] at h1 h2 ⊢
+        refine ⟨h1.1.trans h2.1, fun p hp => ?_, fun r hr => ?_⟩
+        · rcases h1.2.1 p hp with hn | ⟨q, hq, hk, hv⟩
+          · exact Or.inl hn
+          · rcases h2.2.1 q hq with hn | ⟨r, hr, hk', hv'⟩
+            · rw [isNone_iff.1 hn] at hv
+              exact Or.inl (isNone_iff.2 (pyEq_none_right hv))
+            · exact Or.inr ⟨r, hr, hk.trans hk', ih p hp q.2 r.2 (ok.1 q hq) hv hv'⟩
+        · rcases h2.2.2 r hr with hn | ⟨q, hq, hk', hv'⟩
+          · exact Or.inl hn
+          · rcases h1.2.2 q hq with hn | ⟨p, hp, hk, hv⟩
+            · rw [isNone_iff.1 hn] at hv'
+              exact Or.inl (isNone_iff.2 (pyEq_none_left hv'))
+            · exact Or.inr ⟨p, hp, hk.trans hk', ih p hp q.2 r.2 (ok.1 q hq) hv hv'⟩
       | _ => simp [pyEq] at h2
     | _ => simp [pyEq] at h1
 
@@ -486,22 +521,15 @@ theorem pyEq_symm : ∀ v : PyVal, okVal v = true → ∀ w, okVal w = true → 
   · intro cn a ih okv w okw h
     cases w with
     | inst cn' b =>
-      simp only [pyEq, okVal, Bool.and_eq_true, okAttrs_iff] at h okv okw ⊢
-      simp only [beq_iff_eq, attrsSub_iff] at h ⊢
-      refine ⟨⟨h.1.1.symm, h.1.2.symm⟩, ?_⟩
-      have hs := surj_of_total_inj
-        (fun (p q : String × PyVal) => p.1 = q.1 ∧ pyEq p.2 q.2 = true) a b
-        (by omega)
-        (fun p hp => h.2 p hp)
-        (by
-          have hpw := keysDistinct_pairwise _ okv.2
-          rw [List.pairwise_map] at hpw
-          refine hpw.imp ?_
-          intro p p' hne q hR hR'
-          exact hne (hR.1.trans hR'.1.symm))
-      intro q hq
-      obtain ⟨p, hp, h1, h2⟩ := hs q hq
-      exact ⟨p, hp, h1.symm, ih p hp (okv.1 p hp) q.2 (okw.1 q hq) h2⟩
+      simp only [okVal, Bool.and_eq_true, okAttrs_iff] at okv okw
+      rw [pyEq_inst_iff] at h ⊢
+      refine ⟨h.1.symm, fun q hq => ?_, fun p hp => ?_⟩
+      · rcases h.2.2 q hq with hn | ⟨p, hp, hk, hv⟩
+        · exact Or.inl hn
+        · exact Or.inr ⟨p, hp, hk.symm, ih p hp (okv.1 p hp) q.2 (okw.1 q hq) hv⟩
+      · rcases h.2.1 p hp with hn | ⟨q, hq, hk, hv⟩
+        · exact Or.inl hn
+        · exact Or.inr ⟨q, hq, hk.symm, ih p hp (okv.1 p hp) q.2 (okw.1 q hq) hv⟩
     | _ => simp [pyEq] at h
 
 /-- without the invariant `==` on the model's dicts is not symmetric (duplicate keys) -/
